@@ -569,6 +569,21 @@ class Node:
             self.invalidate(out)
             return {"raised": type(e).__name__}
 
+    def op_lowstack(self, op):
+        """['lowstack', k, inner_op]: run the op itself (its result counts) with the recursion
+        limit squeezed to the current depth + k; a RecursionError propagates as the op's
+        outcome ('raised')."""
+        _, k, inner = op
+        h = getattr(self, "op_" + inner[0], None) or self.ext.get(inner[0])
+        if h is None:
+            raise Skip("unknown-op")
+        old = sys.getrecursionlimit()
+        sys.setrecursionlimit(faults._depth() + max(8, int(k)))
+        try:
+            return h(inner)
+        finally:
+            sys.setrecursionlimit(old)
+
     # generic construction
     def op_call(self, op):
         _, out, fname, args = op[:4]
